@@ -100,7 +100,7 @@ def tok? : String → Option Tok
   | "badb64" => some ⟨true, false, false, false, false, false⟩
   | "forged" | "tampered" | "splice" | "splicelive" | "swapsig" | "truncsig" | "extsig" | "emptysig" | "sigpayload"
   | "sigprefix" => some ⟨true, true, false, true, true, false⟩
-  | "expired" => some ⟨true, true, true, true, false, true⟩
+  | "expired" | "agedexpired" => some ⟨true, true, true, true, false, true⟩
   | "olderexpired" => some ⟨true, true, true, true, false, false⟩
   | "valid" => some ⟨true, true, true, true, true, true⟩
   | "older" => some ⟨true, true, true, true, true, false⟩
